@@ -236,15 +236,55 @@ func ruleStateCoverage(c *Ctx, r *Report) {
 	}
 	// --- deserialize: reads every serialised field and writes every State field
 	if fn := c.need(r, rule, "(*dtls.State).deserialize"); fn != nil {
-		r.Sites += len(fn.Blocks)
-		var param ssa.Value = fn.Params[1]
-		// struct parameters are spilled to a local cell: find it
-		loaded := fieldsLoadedFrom(fn, param)
-		for _, b := range fn.Blocks {
-			for _, in := range b.Instrs {
-				if al, ok := in.(*ssa.Alloc); ok && types.Identical(derefType(al.Type()), fn.Params[1].Type()) {
-					for k, v := range fieldsLoadedFrom(fn, al) {
-						loaded[k] = append(loaded[k], v...)
+		// the import may be cut into methods of the State that deserialize calls on itself and
+		// hands the serialised form (or its address): they are part of it
+		unit := []*ssa.Function{fn}
+		isSer := func(t types.Type) bool { return namedOf(derefType(t)) == "dtls.serializedState" }
+		for d := 0; d < 2; d++ {
+			for _, u := range unit {
+				for _, call := range findCalls(u, func(string) bool { return true }) {
+					g := call.Call.StaticCallee()
+					if g == nil || g.Pkg != fn.Pkg || len(g.Blocks) == 0 || g.Signature.Recv() == nil || len(call.Call.Args) == 0 {
+						continue
+					}
+					if p, isP := call.Call.Args[0].(*ssa.Parameter); !isP || paramIndex(p) != 0 || namedOf(derefType(g.Params[0].Type())) != "dtls.State" {
+						continue
+					}
+					takesSer, known := false, false
+					for _, gp := range g.Params[1:] {
+						if isSer(gp.Type()) {
+							takesSer = true
+						}
+					}
+					for _, x := range unit {
+						if x == g {
+							known = true
+						}
+					}
+					if takesSer && !known {
+						unit = append(unit, g)
+					}
+				}
+			}
+		}
+		loaded := map[string][]ssa.Value{}
+		for _, g := range unit {
+			r.Sites += len(g.Blocks)
+			for _, gp := range g.Params[1:] {
+				if !isSer(gp.Type()) {
+					continue
+				}
+				for k, v := range fieldsLoadedFrom(g, gp) {
+					loaded[k] = append(loaded[k], v...)
+				}
+			}
+			// struct parameters are spilled to a local cell: find it
+			for _, b := range g.Blocks {
+				for _, in := range b.Instrs {
+					if al, ok := in.(*ssa.Alloc); ok && isSer(al.Type()) {
+						for k, v := range fieldsLoadedFrom(g, al) {
+							loaded[k] = append(loaded[k], v...)
+						}
 					}
 				}
 			}
@@ -253,7 +293,11 @@ func ruleStateCoverage(c *Ctx, r *Report) {
 			r.Check(len(loaded[f]) > 0, rule, short(fn)+":reads:"+f, c.pos(fn.Pos()), "read", "deserialize never reads serializedState."+f+": the exported value is dropped on import")
 		}
 		written := map[string]bool{}
-		for _, b := range fn.Blocks {
+		var unitBlocks []*ssa.BasicBlock
+		for _, g := range unit {
+			unitBlocks = append(unitBlocks, g.Blocks...)
+		}
+		for _, b := range unitBlocks {
 			for _, in := range b.Instrs {
 				if st, ok := in.(*ssa.Store); ok {
 					if o, f, _, ok := fieldOfAddr(st.Addr); ok && o == "dtls.State" {
@@ -275,7 +319,7 @@ func ruleStateCoverage(c *Ctx, r *Report) {
 		}
 		// the imported values are taken as they are: no arithmetic on the way in (the record counter in
 		// particular must keep a value beyond 2^48-1, which is what makes the next write fail)
-		for _, b := range fn.Blocks {
+		for _, b := range unitBlocks {
 			for _, in := range b.Instrs {
 				st, ok := in.(*ssa.Store)
 				if !ok {
